@@ -1,3 +1,4 @@
+import Oas3Model.Proofs.Router
 import Oas3Model.Model.Server
 import Oas3Model.Model.ServerParams
 import Oas3Model.Props.C04
@@ -204,5 +205,59 @@ example : memberOk { name := "sort-Order".toList, loc := .query, item := .boolea
     { ident := "e".toList, rename := none, ty := "OpRequestQueryE".toList } = true ∧
   memberOk { name := "e".toList, loc := .query, item := .enum, required := true }
     { ident := "e".toList, rename := none, ty := "String".toList } = false := by decide +kernel
+
+/-! ## which request reaches which handler (stated axum semantics `Sem/Router.lean`, tied to the real axum by `route.dispatch`)
+
+`dispatch` = the emitted router: path → route (static before parameter, no backtracking), route → method with axum's HEAD
+fallback; `dispatchStrict` = the same path resolution with the methods exactly as declared (the property's reference). -/
+section Routing
+open Oas3.Router Oas3.ReqInterop
+
+/-- no pattern of the table matches: 404 for every method -/
+theorem undeclared_path_404 (table : List Route) (method : Str) (path : List Str)
+    (h : ∀ r ∈ table, routeMatch r.pattern path = none) : dispatch table method path = .notFound :=
+  dispatch_no_match table method path h
+
+/-- exactly one route matches and it registers the method: that handler, no other -/
+theorem declared_reaches_own_handler (table : List Route) (method : Str) (path : List Str) (r : Route) (id : Nat)
+    (hm : matching table path = [r]) (hr : lookupM method r.methods = some id) : dispatch table method path = .handler id := by
+  rw [dispatch_unique table method path r hm]; exact resolve_registered r method id hr
+
+/-- exactly one route matches, the method is not registered there and is not a HEAD next to a GET: 405 -/
+theorem undeclared_method_405 (table : List Route) (method : Str) (path : List Str) (r : Route)
+    (hm : matching table path = [r]) (hr : lookupM method r.methods = none)
+    (hh : method ≠ mHEAD ∨ lookupM mGET r.methods = none) : dispatch table method path = .methodNotAllowed := by
+  rw [dispatch_unique table method path r hm]; exact resolve_unregistered r method hr hh
+
+/-- whatever the table, a request only ever reaches a handler that a MATCHING route registered under the requested method —
+or, for HEAD, under GET -/
+theorem handler_reached_is_registered (table : List Route) (method : Str) (path : List Str) (id : Nat)
+    (h : dispatch table method path = .handler id) :
+    ∃ r ∈ table, (routeMatch r.pattern path).isSome ∧
+      (lookupM method r.methods = some id ∨ (method = mHEAD ∧ lookupM method r.methods = none ∧ lookupM mGET r.methods = some id)) :=
+  dispatch_handler_sound table method path id h
+
+/-- characterisation of the deviation from the declared methods (for EVERY table, method and path): the emitted router
+answers as declared, or the request is a HEAD that the document does not declare and the GET handler answers it -/
+theorem router_as_declared_or_head (table : List Route) (method : Str) (path : List Str) :
+    dispatch table method path = dispatchStrict table method path ∨
+    (method = mHEAD ∧ dispatchStrict table method path = .methodNotAllowed ∧ ∃ id, dispatch table method path = .handler id) :=
+  dispatch_eq_strict_or_head table method path
+
+theorem router_as_declared_of_not_head (table : List Route) (method : Str) (path : List Str) (h : method ≠ mHEAD) :
+    dispatch table method path = dispatchStrict table method path := dispatch_eq_strict_of_not_head table method path h
+
+private def tbl : List Route := [⟨[.lit "x".toList], [(mGET, 0)]⟩, ⟨[.lit "pets".toList, .cap [] "id".toList], [(mGET, 1), ("DELETE".toList, 2)]⟩,
+  ⟨[.lit "pets".toList, .lit "mine".toList], [(mGET, 3)]⟩]
+
+/-- finding F05-6: `HEAD /x` on a GET-only path reaches the GET operation's handler (the document declares 405) -/
+theorem cex_head_served_by_get : dispatch tbl mHEAD ["x".toList] = .handler 0 ∧ dispatchStrict tbl mHEAD ["x".toList] = .methodNotAllowed := by
+  decide +kernel
+
+/-- static before parameter, and no second try: `DELETE /pets/mine` is refused although `/pets/{id}` has a DELETE -/
+example : dispatch tbl mGET ["pets".toList, "mine".toList] = .handler 3 ∧ dispatch tbl mGET ["pets".toList, "7".toList] = .handler 1 ∧
+    dispatch tbl "DELETE".toList ["pets".toList, "mine".toList] = .methodNotAllowed ∧ dispatch tbl mGET ["y".toList] = .notFound ∧
+    dispatch tbl mGET ["x".toList, [] ] = .notFound := by decide +kernel
+end Routing
 
 end Oas3.Props.C05
